@@ -76,12 +76,24 @@ impl FromStr for TestShape {
 
     fn from_str(s: &str) -> Result<Self, Self::Err> {
         log(json!({"ev": "conv", "arg": cps(s)}));
+        reenter();
         if PARAMS.with(|p| p.borrow().conv) {
             Ok(TestShape { ty: s.to_owned() })
         } else {
             Err(TestErr::Conv)
         }
     }
+}
+
+/// User code may itself use the library while the library is calling it (a hook that validates a nested PURL
+/// kept in a qualifier, a conversion that consults a parsed table): every callback parses, builds and prints
+/// a PURL of a built-in type parameter.  A library that holds a lock or a borrowed scratch buffer across the
+/// callback fails here, inside the call whose outcome the specification fixes.
+fn reenter() {
+    let p = purl::GenericPurl::<String>::from_str("pkg:Npm/%40a//b/c@1?k=v&checksum=B:00,a:FF#d/./e")
+        .expect("nested parse inside a callback");
+    let q = p.clone().into_builder().with_qualifier("z", "1").expect("valid key").build().expect("nested build inside a callback");
+    assert!(q.to_string().len() > p.to_string().len());
 }
 
 fn apply_edit(parts: &mut PurlParts, e: &Value) {
@@ -110,6 +122,7 @@ impl PurlShape for TestShape {
 
     fn finish(&mut self, parts: &mut PurlParts) -> Result<(), Self::Error> {
         let before = parts_json(parts);
+        reenter();
         let params = PARAMS.with(|p| p.borrow().clone());
         if !params.fin {
             log(json!({"ev": "finish", "before": before, "after": before, "ok": false}));
